@@ -12,6 +12,7 @@ CONSTANTS
     MaxReaps = 2
     ResumeScripts = {"noop", "close", "panic", "close_panic", "close_open"}
     OpenScripts = {"open", "open_panic", "open_close", "open_open", "close"}
+    Routes = {"unary", "pinit", "pcont", "xturn"}
     Toks = {"own", "bad"}
     Lags = {0, 1}
     AadBinds = TRUE
